@@ -600,6 +600,8 @@ pub struct SendRec {
     pub accepted: bool,
     /// the item handed back by a failing variant (None: nothing handed back)
     pub returned: Option<Id>,
+    /// the call panicked (whether the item went in is unknown)
+    pub panicked: bool,
 }
 
 #[derive(Clone, Copy, Debug, PartialEq, Eq)]
@@ -679,6 +681,8 @@ pub struct History {
     pub stuck: Option<String>,
     /// sequential mode: what the queue model ended with
     pub model: Option<ModelEnd>,
+    /// panics that escaped a channel API call made by an actor: (operation, message)
+    pub panics: Vec<(String, String)>,
 }
 
 impl History {
@@ -1002,7 +1006,7 @@ pub fn install() {
     INSTALL.call_once(|| {
         // (under Miri: 700 ms → 700 µs, so that an idle receiver thread really sleeps instead of
         // consuming interpretation time)
-        eb::verif::set_delay_divisor(if cfg!(miri) { 1_000 } else { 100_000 });
+        eb::verif::set_delay_divisor(100_000);
         eb::verif::set_hook(Some(hook));
     });
 }
@@ -1211,6 +1215,30 @@ fn read_metrics(src: &eb::ChannelMetrics<Q>) -> BTreeMap<String, u64> {
     g.0.into_inner()
 }
 
+/// Panics that escaped a channel API call made by an actor: (scenario, operation, message).
+static PANICS: Mutex<Vec<(u32, String, String)>> = Mutex::new(Vec::new());
+
+fn note_panic(uid: u32, op: &str, msg: String) {
+    if let Ok(mut p) = PANICS.lock() {
+        p.push((uid, op.to_string(), msg));
+    }
+}
+
+fn take_panics(uid: u32) -> Vec<(String, String)> {
+    let mut p = PANICS.lock().unwrap();
+    let mut mine = Vec::new();
+    let mut i = 0;
+    while i < p.len() {
+        if p[i].0 == uid {
+            let e = p.swap_remove(i);
+            mine.push((e.1, e.2));
+        } else {
+            i += 1;
+        }
+    }
+    mine
+}
+
 fn take_orphans(uid: u32) -> Vec<(u64, Vec<Id>)> {
     let mut o = ORPHANS.lock().unwrap();
     let mut mine = Vec::new();
@@ -1243,46 +1271,68 @@ fn rt(slot: &mut Rt) -> &tokio::runtime::Runtime {
 fn do_send(sender: &Sender<Q>, id: Id, op: SOp, rt_slot: &mut Rt) -> SendRec {
     let _ = &rt_slot;
     let us = |t: u32| Duration::from_micros(t as u64);
-    let fin = |kind, call, res: Result<(), BatchError<Id>>| {
+    let fin = |kind: SendKind, call, res: Result<Result<(), BatchError<Id>>, String>| {
         let ret = stamp();
         match res {
-            Ok(()) => SendRec { id, kind, call, ret, accepted: true, returned: None },
-            Err(e) => SendRec { id, kind, call, ret, accepted: false, returned: e.into_retryable() },
+            Ok(Ok(())) => SendRec { id, kind, call, ret, accepted: true, returned: None, panicked: false },
+            Ok(Err(e)) => SendRec { id, kind, call, ret, accepted: false, returned: e.into_retryable(), panicked: false },
+            Err(msg) => {
+                note_panic(
+                    id.sc,
+                    match kind {
+                        SendKind::Send => "send",
+                        SendKind::TrySend => "try_send",
+                        SendKind::BlockingSend => "sync::blocking_send",
+                        SendKind::TokioSend => "tokio::send",
+                        SendKind::TokioBlockingSend => "tokio::blocking_send",
+                    },
+                    msg,
+                );
+                SendRec { id, kind, call, ret, accepted: false, returned: None, panicked: true }
+            }
         }
     };
     match op {
         SOp::Send => {
             let call = stamp();
-            sender.send(id);
-            fin(SendKind::Send, call, Ok(()))
+            let r = catch(|| {
+                sender.send(id);
+                Ok(())
+            });
+            fin(SendKind::Send, call, r)
         }
         SOp::TrySend => {
             let call = stamp();
-            let r = sender.try_send(id);
+            let r = catch(|| sender.try_send(id));
             fin(SendKind::TrySend, call, r)
         }
         SOp::BlockingSend(t) => {
             let call = stamp();
-            let r = eb::sync::blocking_send(sender, id, us(t));
+            let r = catch(|| eb::sync::blocking_send(sender, id, us(t)));
             fin(SendKind::BlockingSend, call, r)
         }
         #[cfg(feature = "tokio")]
         SOp::TokioSend(t) => {
-            let rt = rt(rt_slot);
             let call = stamp();
-            let r = rt.block_on(eb::tokio::send(sender, id, us(t)));
+            let r = {
+                let rt = rt(rt_slot);
+                catch(|| rt.block_on(eb::tokio::send(sender, id, us(t))))
+            };
+            if r.is_err() {
+                *rt_slot = None;
+            }
             fin(SendKind::TokioSend, call, r)
         }
         #[cfg(feature = "tokio")]
         SOp::TokioBlockingSend(t) => {
             let call = stamp();
-            let r = eb::tokio::blocking_send(sender, id, us(t));
+            let r = catch(|| eb::tokio::blocking_send(sender, id, us(t)));
             fin(SendKind::TokioBlockingSend, call, r)
         }
         #[cfg(not(feature = "tokio"))]
         SOp::TokioSend(t) | SOp::TokioBlockingSend(t) => {
             let call = stamp();
-            let r = eb::sync::blocking_send(sender, id, us(t));
+            let r = catch(|| eb::sync::blocking_send(sender, id, us(t)));
             fin(SendKind::BlockingSend, call, r)
         }
         SOp::Pace(_) => unreachable!(),
@@ -1290,11 +1340,27 @@ fn do_send(sender: &Sender<Q>, id: Id, op: SOp, rt_slot: &mut Rt) -> SendRec {
 }
 
 /// Returns the record and, for callback flushes, the slot the callback stamps into.
-fn do_flush(sender: &Sender<Q>, who: u8, op: FOp, rt_slot: &mut Rt) -> (FlushRec, Option<Arc<AtomicU64>>) {
+fn do_flush(sender: &Sender<Q>, uid: u32, who: u8, op: FOp, rt_slot: &mut Rt) -> (FlushRec, Option<Arc<AtomicU64>>) {
     let _ = &rt_slot;
     let us = |t: u32| Duration::from_micros(t as u64);
-    let late = |kind, req, ok: bool| {
+    let late = |kind: FlushKind, req, ok: Result<bool, String>| {
         let e = stamp();
+        let ok = match ok {
+            Ok(ok) => ok,
+            Err(msg) => {
+                note_panic(
+                    uid,
+                    match kind {
+                        FlushKind::Callback => "when_flushed",
+                        FlushKind::Blocking => "sync::blocking_flush",
+                        FlushKind::TokioFlush => "tokio::flush",
+                        FlushKind::TokioBlocking => "tokio::blocking_flush",
+                    },
+                    msg,
+                );
+                false
+            }
+        };
         (FlushRec { who, kind, req, done: ok.then_some(e), exact: false }, None)
     };
     match op {
@@ -1302,46 +1368,61 @@ fn do_flush(sender: &Sender<Q>, who: u8, op: FOp, rt_slot: &mut Rt) -> (FlushRec
             let slot = Arc::new(AtomicU64::new(0));
             let s2 = slot.clone();
             let req = stamp();
-            sender.when_flushed(move || {
-                s2.store(stamp(), SeqCst);
+            let r = catch(|| {
+                sender.when_flushed(move || {
+                    s2.store(stamp(), SeqCst);
+                })
             });
+            if let Err(msg) = r {
+                note_panic(uid, "when_flushed", msg);
+            }
             (FlushRec { who, kind: FlushKind::Callback, req, done: None, exact: true }, Some(slot))
         }
         FOp::Blocking(t) => {
             let req = stamp();
-            let ok = eb::sync::blocking_flush(sender, us(t));
+            let ok = catch(|| eb::sync::blocking_flush(sender, us(t)));
             late(FlushKind::Blocking, req, ok)
         }
         #[cfg(feature = "tokio")]
         FOp::TokioFlush(t) => {
-            let rt = rt(rt_slot);
             let req = stamp();
-            let ok = rt.block_on(eb::tokio::flush(sender, us(t)));
+            let ok = {
+                let rt = rt(rt_slot);
+                catch(|| rt.block_on(eb::tokio::flush(sender, us(t))))
+            };
+            if ok.is_err() {
+                *rt_slot = None;
+            }
             late(FlushKind::TokioFlush, req, ok)
         }
         #[cfg(feature = "tokio")]
         FOp::TokioBlocking(t) => {
             let req = stamp();
-            let ok = eb::tokio::blocking_flush(sender, us(t));
+            let ok = catch(|| eb::tokio::blocking_flush(sender, us(t)));
             late(FlushKind::TokioBlocking, req, ok)
         }
         #[cfg(not(feature = "tokio"))]
         FOp::TokioFlush(t) | FOp::TokioBlocking(t) => {
             let req = stamp();
-            let ok = eb::sync::blocking_flush(sender, us(t));
+            let ok = catch(|| eb::sync::blocking_flush(sender, us(t)));
             late(FlushKind::Blocking, req, ok)
         }
         FOp::Pace(_) => unreachable!(),
     }
 }
 
-fn do_when_empty(sender: &Sender<Q>) -> (EmptyRec, Arc<AtomicU64>) {
+fn do_when_empty(sender: &Sender<Q>, uid: u32) -> (EmptyRec, Arc<AtomicU64>) {
     let slot = Arc::new(AtomicU64::new(0));
     let s2 = slot.clone();
     let req = stamp();
-    sender.when_empty(move || {
-        s2.store(stamp(), SeqCst);
+    let r = catch(|| {
+        sender.when_empty(move || {
+            s2.store(stamp(), SeqCst);
+        })
     });
+    if let Err(msg) = r {
+        note_panic(uid, "when_empty", msg);
+    }
     (EmptyRec { req, fired: None }, slot)
 }
 
@@ -1394,7 +1475,7 @@ fn exec_thread(sc: Arc<ScCtx>, receiver: Receiver<Q>, proc: Arc<Mutex<Processor>
         } else {
             // Miri interleaves all threads on one OS thread: a busy-polling executor would
             // eat the interpretation time of the actors, so let it sleep (real clock)
-            thread::sleep(Duration::from_micros(100));
+            thread::yield_now();
         }
     };
     leave();
@@ -1482,7 +1563,7 @@ pub fn run_concurrent(plan: &Plan, delays: bool) -> History {
                     match op {
                         FOp::Pace(p) => aimed = pace(sc, *p),
                         _ => {
-                            log.push(do_flush(sender, j as u8, *op, &mut rt_slot));
+                            log.push(do_flush(sender, uid, j as u8, *op, &mut rt_slot));
                             if aimed {
                                 sc.ack();
                                 aimed = false;
@@ -1506,7 +1587,7 @@ pub fn run_concurrent(plan: &Plan, delays: bool) -> History {
                         WOp::Pace(p) => {
                             pace(sc, *p);
                         }
-                        WOp::WhenEmpty => log.push(do_when_empty(sender)),
+                        WOp::WhenEmpty => log.push(do_when_empty(sender, uid)),
                     }
                 }
                 leave();
@@ -1575,6 +1656,7 @@ pub fn run_concurrent(plan: &Plan, delays: bool) -> History {
         injected_ops: 0,
         stuck: None,
         model: None,
+        panics: take_panics(uid),
     }
 }
 
@@ -1719,11 +1801,11 @@ impl Seq {
             SeqKind::F(fop) => {
                 let who = op.role - ROLE_FLUSHER0;
                 label = format!("{:?}", fop);
-                self.flushes.push(do_flush(&sender, who, fop, &mut rt_slot));
+                self.flushes.push(do_flush(&sender, self.uid, who, fop, &mut rt_slot));
             }
             SeqKind::W => {
                 label = "when_empty".to_string();
-                self.empties.push(do_when_empty(&sender));
+                self.empties.push(do_when_empty(&sender, self.uid));
             }
         }
         ROLE.with(|r| r.set(prev));
@@ -1931,6 +2013,7 @@ pub fn run_sequential(plan: &Plan) -> History {
         injected_ops: seq.injected,
         stuck,
         model: None,
+        panics: take_panics(uid),
     };
     h.model = Some(seq.m_end);
     h
@@ -2114,6 +2197,9 @@ pub fn check_c06(h: &History, budget: Option<u32>, r: &mut Report) -> Seen {
     for (sig, what) in &h.model_problems {
         viol(sig, what.clone(), &[], Json::Null);
     }
+    for (op, msg) in &h.panics {
+        viol(&format!("C06:panic:{}", op), format!("{} panicked on the caller's thread: {}", op, msg), &[], Json::Null);
+    }
     // check 2
     for (sig, what, ids) in &att.problems {
         viol(sig, what.clone(), ids, Json::Null);
@@ -2140,7 +2226,7 @@ pub fn check_c06(h: &History, budget: Option<u32>, r: &mut Report) -> Seen {
                             Json::Null,
                         );
                     }
-                    if !s.accepted {
+                    if !s.accepted && !s.panicked {
                         viol(
                             "C06:rejected-item-delivered",
                             format!("{}.{} was refused by {:?} (item handed back to the caller) but delivered in call #{}", id.who, id.n, s.kind, k),
@@ -2303,6 +2389,13 @@ pub fn check_c07(h: &History, r: &mut Report) -> (u64, u64) {
         return (0, 0);
     }
     let shape = h.plan.shape();
+    for (op, msg) in &h.panics {
+        r.violation(
+            &format!("C07:panic:{}:{}", op, shape),
+            &format!("{} panicked on the caller's thread: {}", op, msg),
+            h.case_json(Json::Null),
+        );
+    }
     // per item: first call, last call, last return over all attempts containing it
     struct A {
         first_call: u64,
